@@ -2,6 +2,7 @@ package keeper
 
 import (
 	"context"
+	"fmt"
 
 	errorsmod "cosmossdk.io/errors"
 	cryptocodec "github.com/cosmos/cosmos-sdk/crypto/codec"
@@ -38,7 +39,16 @@ func (k Keeper) RegisterExecutorChangePlan(
 	}
 
 	var pubKey cryptotypes.PubKey
-	err = k.cdc.UnmarshalInterfaceJSON([]byte(consensusPubKey), &pubKey)
+	err = func() (err error) {
+		// the decoders of some registered key types panic on malformed input (a multisig key with a
+		// null member); a malformed plan has to be rejected with an error
+		defer func() {
+			if r := recover(); r != nil {
+				err = fmt.Errorf("%v", r)
+			}
+		}()
+		return k.cdc.UnmarshalInterfaceJSON([]byte(consensusPubKey), &pubKey)
+	}()
 	if err != nil {
 		return errorsmod.Wrap(types.ErrInvalidExecutorChangePlan, "invalid pub key")
 	}
